@@ -1,6 +1,6 @@
 #!/usr/bin/env python3
 """
-py2lean — a deliberately tiny Python→Lean translator for pure integer/boolean kernels.
+py2lean — a deliberately tiny Python→Lean translator for pure integer/boolean and byte-string kernels.
 
 It reads functions from /repo's *current* source (via `ast`), and emits Lean 4
 definitions into lean/Generated/<Name>.lean.  The property files then prove
@@ -42,10 +42,49 @@ Extensions used by the kernels after C34 (class `Flow`, each one opt-in through 
                 then `return st`; conditions `s == "lit"`, `"<c>" in s`, `st` (non-empty), and /
                 or / not, `<param>.startswith("lit")`.  Text is `List UInt8` (code points < 256).
                 The loop becomes `List.foldlM` of the generated step function in `Option`.
+
+Byte-string kernels (class `ByteTr`, driven by a `BSpec`; used by SshWire/C37, Banana/C44, Quote/C46, Telnet/C38,
+Xtext/C41).  Every expression carries a type: nat (a Python int known to be ≥ 0: literals, len(), ord(), results of
+unpack / from_bytes, + * & << >> of nats), int, bytes (`List UInt8`), str (`List Char`), byte / char (one element of a
+bytes / str: the loop variable of `iterbytes(x)` / of a loop over a tuple of characters), lists of these, pairs.
+Anything whose type cannot be established is `Unsupported`.
+  values      : bytes and str literals; `a + b` on bytes/str (`++`); `b"lit" * n`; `len(x)`; `x[a:b]`, `x[a:]`, `x[:b]`
+                with nat-typed bounds ONLY (so Python's negative-index rule never applies) as `(x.take b).drop a`;
+                `x.replace(p, r)` ONLY for a one-element pattern p (literal of length 1, or a byte/char variable) as the
+                fixed `pyReplace1 p r x` (a flatMap); `b"".join(r)` as `r.flatten`; `ord(x)` of a byte/char (its value), of
+                a one-character literal (a constant), of a bytes value (`pyOrd`: TypeError unless one byte);
+                `bytes((e,))` and `networkString(f"..{e:02X}..")` ONLY when e is statically < 256 (`ord` of a loop byte,
+                `e & m` with m ≤ 255, or a variable bound to one); nat arithmetic `+ * & << >>`, `// %` by a positive
+                literal; `-`, and any arithmetic touching an int, in Int; comparisons; and / or / not; truth value of a
+                nat/int (`≠ 0`) or of a sequence (`≠ []`); calls in the spec's rename table `prims`, keyed by callee and
+                string-literal arguments (`struct.pack('!L',_)` → `packU32`, `struct.unpack('>L',_)` → `unpackU32`,
+                `int_to_bytes(_)` → `intToBytes`, `int.from_bytes(_,'big')` → `intFromBytesBig`: fixed Lean definitions
+                over `u32be` / `beToNat` / `natToBE` of TwistedModel/Py/Bytes.lean, emitted into the generated file).
+  raising     : a function declared `effect` returns `Except PyErr _`; a call that can raise is hoisted, in Python's
+                evaluation order, into a monadic bind before the statement using it (never from under `and`/`or`, a
+                merging branch or a loop header); `assert c` is `if c then .. else throw PyErr.assertionError`, and
+                `assert v > 0` / `v >= 0` on an int variable re-types v as a nat (`v.toNat`) from there on.
+  statements  : assignment / augmented assignment in SSA form; `(v,) = <prim returning a 1-tuple>`;
+                `a, b, c = "xyz"` (three characters); `x = []` with the element type declared in the spec;
+                `x.append(e)`; with a `sink` parameter (int2b128's `stream`) `sink(e)` appends e to the output, which is the
+                function's value (bare `return` and falling off the end return it); `if` with returning branches
+                (nested) or assignment-only branches (merged into `let x := if c then a else b`); tests the spec resolves
+                statically (`isinstance(t, str)` is False for t : bytes); `return e`, `return a, b`, and
+                `return tuple(xs) + (y,)` as the pair (xs, y).
+  loops       : `for i in range(n)` (n : nat), `for ch in iterbytes(x)`, `for c in a, b, c` (characters): the variables
+                assigned in the body and defined before it are the loop state, the body becomes a generated step function
+                (parameters: the outer variables it reads), the loop is `List.foldl` / `List.foldlM` (Except) of it; no
+                break / continue / return / raise inside.  `while v:` ONLY over a nat variable v whose single assignment in
+                the body is `v = v >> k` (k ≥ 1) or `v = v // k` (k ≥ 2) at the top level of the body: a recursive
+                function with `termination_by v` and a fixed `decreasing_by` script.
+  tail calls  : (Telnet) a method whose body is exactly one call statement `<callee>(.., E)` with the callee named in the
+                spec has the value E (`self.transport.write`) or `<generated callee> E`.
+  module level: `require_import` / `no_rebinding` check that the names in the rename table mean what the table says.
 """
 from __future__ import annotations
 
 import ast
+import re
 import sys
 import textwrap
 from dataclasses import dataclass, field
@@ -720,7 +759,983 @@ def gen_ftp(repo: Path) -> str:
     return "\n".join(out)
 
 
-KERNELS = {"Rfc1982": gen_rfc1982, "Looping": gen_looping, "Range": gen_range, "FD": gen_fd, "Ftp": gen_ftp}
+# ---------------------------------------------------------------------------------------
+# Byte-string kernels (class `ByteTr`; see the module docstring)
+
+BYTES_PRELUDE = """/-- the exception classes a byte-string kernel can raise -/
+inductive PyErr where
+  | structError | assertionError | overflowError | typeError | valueError
+  deriving Repr, DecidableEq
+
+/-- `x.replace(c, r)` for a one-element pattern `c` (every occurrence, left to right) -/
+def pyReplace1 {α : Type} [DecidableEq α] (c : α) (r : List α) (x : List α) : List α :=
+  x.flatMap fun e => if e = c then r else [e]
+
+/-- `b * n` -/
+def pyRepeat {α : Type} (b : List α) (n : Nat) : List α := (List.replicate n b).flatten
+
+/-- `ord(b)` for a bytes object: TypeError unless it has exactly one byte -/
+def pyOrd : List UInt8 → Except PyErr Nat
+  | [b] => .ok b.toNat
+  | _ => .error .typeError
+
+/-- `f"{n:02X}"` for `n < 256` (the translator emits it only under that static bound) -/
+def pyFmt02X (n : Nat) : List UInt8 :=
+  let d (k : Nat) : UInt8 := if k < 10 then UInt8.ofNat (48 + k) else UInt8.ofNat (55 + k)
+  [d (n / 16), d (n % 16)]
+"""
+
+STRUCT_PRELUDE = """open Twisted.Py in
+/-- `struct.pack("!L", n)` / `struct.pack(">L", n)`: struct.error outside 0 ≤ n < 2^32 -/
+def packU32 (n : Int) : Except PyErr (List UInt8) :=
+  if 0 ≤ n ∧ n < 4294967296 then .ok (u32be n.toNat) else .error .structError
+
+open Twisted.Py in
+/-- `(v,) = struct.unpack("!L", b)` / `">L"`: struct.error unless `len(b) == 4` -/
+def unpackU32 (b : List UInt8) : Except PyErr Nat :=
+  if b.length = 4 then .ok (beToNat b) else .error .structError
+
+open Twisted.Py in
+/-- `cryptography.utils.int_to_bytes(n)` (no length): OverflowError for n < 0, one zero byte for 0,
+    the minimal big-endian representation otherwise -/
+def intToBytes (n : Int) : Except PyErr (List UInt8) :=
+  if n < 0 then .error .overflowError else if n = 0 then .ok [0] else .ok (natToBE n.toNat)
+
+open Twisted.Py in
+/-- `int.from_bytes(b, "big")` -/
+def intFromBytesBig (b : List UInt8) : Nat := beToNat b
+"""
+
+# rename table of the struct / int primitives: call key → (lean function, argument types, result type, may raise)
+STRUCT_PRIMS = {
+    "struct.pack('!L',_)": ("packU32", ["int"], "bytes", True),
+    "struct.pack('>L',_)": ("packU32", ["int"], "bytes", True),
+    "struct.unpack('!L',_)": ("unpackU32", ["bytes"], "tuple1:nat", True),
+    "struct.unpack('>L',_)": ("unpackU32", ["bytes"], "tuple1:nat", True),
+    "int_to_bytes(_)": ("intToBytes", ["int"], "bytes", True),
+    "int.from_bytes(_,'big')": ("intFromBytesBig", ["bytes"], "nat", False),
+}
+
+LEAN_T = {"nat": "Nat", "int": "Int", "bytes": "List UInt8", "str": "List Char", "byte": "UInt8", "char": "Char"}
+LEAN_RESERVED = {"at", "end", "from", "fun", "in", "do", "then", "else", "if", "let", "have", "show", "with", "open",
+                 "by", "match", "def", "theorem", "instance", "where", "Type", "Prop", "Sort", "mut", "for", "return"}
+
+
+@dataclass
+class BSpec:
+    """How to render one Python byte-string function as a Lean def."""
+    pyname: str
+    leanname: str
+    params: list                      # (python name, type) in order; "self" and sink/ignored parameters excluded
+    ret: object                       # type of the value returned ("bytes", ("pair", a, b), ...)
+    effect: bool = False              # may raise: the result is `Except PyErr <ret>`
+    prims: dict = field(default_factory=dict)     # call key → (lean fn, [arg types], result type, may raise)
+    static: dict = field(default_factory=dict)    # source text of a test → its value under the declared parameter types
+    locals: dict = field(default_factory=dict)    # python local initialised with `[]` → its list type
+    sink: str = ""                    # callback parameter: `sink(e)` appends e to the output, which is the result
+    ignore: tuple = ()                # python parameters outside the kernel (e.g. `errors=None`), never read
+    tail: dict = field(default_factory=dict)      # callee text → "" (result = its argument) | lean fn (result = fn argument)
+
+
+def lean_type(t) -> str:
+    if isinstance(t, tuple) and t[0] == "list":
+        return f"List ({lean_type(t[1])})"
+    if isinstance(t, tuple) and t[0] == "pair":
+        return f"({lean_type(t[1])} × {lean_type(t[2])})"
+    if t in LEAN_T:
+        return LEAN_T[t]
+    raise Unsupported(f"no Lean type for {t!r}")
+
+
+def lean_ident(name: str) -> str:
+    return name + "'" if name in LEAN_RESERVED else name
+
+
+class ByteTr:
+    """Typed translation of byte-string / text kernels; env: python name → (lean term, type, static upper bound)."""
+
+    def __init__(self, spec: BSpec):
+        self.spec = spec
+        self.counter: dict[str, int] = {}
+        self.binds: list[list[str]] = []     # hoisted raising calls, in evaluation order: [name, rhs]
+        self.aux: list[str] = []             # loop functions, emitted before the main def
+        self.nloops = 0
+
+    def fresh(self, name: str) -> str:
+        self.counter[name] = self.counter.get(name, 0) + 1
+        return f"{lean_ident(name)}_{self.counter[name]}"
+
+    # ---- literals
+    @staticmethod
+    def lit_bytes(b: bytes) -> str:
+        return "([" + ", ".join(str(x) for x in b) + "] : List UInt8)"
+
+    @staticmethod
+    def lit_str(s: str) -> str:
+        return "([" + ", ".join(f"Char.ofNat {ord(c)}" for c in s) + "] : List Char)"
+
+    # ---- coercions
+    def as_type(self, term: str, ty, want, what: str) -> str:
+        if ty == want:
+            return term
+        if ty == "nat" and want == "int":
+            m = re.fullmatch(r"\((\d+) : Nat\)", term)
+            return f"({m.group(1)} : Int)" if m else f"(({term} : Nat) : Int)"
+        if ty == "byte" and want == "bytes":
+            return f"[{term}]"
+        if ty == "char" and want == "str":
+            return f"[{term}]"
+        raise Unsupported(f"{what}: a {ty} where a {want} is needed")
+
+    def bound(self, node, env):
+        if isinstance(node, ast.Name) and node.id in env:
+            return env[node.id][2]
+        if isinstance(node, ast.Constant) and isinstance(node.value, int) and not isinstance(node.value, bool):
+            return node.value if node.value >= 0 else None
+        if isinstance(node, ast.BinOp) and isinstance(node.op, ast.BitAnd):
+            bs = [b for b in (self.bound(node.left, env), self.bound(node.right, env)) if b is not None]
+            return min(bs) if bs else None
+        if (isinstance(node, ast.Call) and isinstance(node.func, ast.Name) and node.func.id == "ord"
+                and len(node.args) == 1 and isinstance(node.args[0], ast.Name) and node.args[0].id in env):
+            return {"byte": 255, "char": 0x10FFFF}.get(env[node.args[0].id][1])
+        return None
+
+    # ---- expressions: (lean term, type)
+    def ex(self, node, env):
+        s = ast.unparse(node)
+        if isinstance(node, ast.Name):
+            if node.id in env:
+                return env[node.id][0], env[node.id][1]
+            raise Unsupported(f"name outside the kernel: {node.id}")
+        if isinstance(node, ast.Constant):
+            v = node.value
+            if isinstance(v, int) and not isinstance(v, bool):
+                return (f"({v} : Nat)", "nat") if v >= 0 else (f"(-{-v} : Int)", "int")
+            if isinstance(v, bytes):
+                return self.lit_bytes(v), "bytes"
+            if isinstance(v, str):
+                return self.lit_str(v), "str"
+            raise Unsupported(f"literal not in subset: {s}")
+        if isinstance(node, ast.BinOp):
+            return self.binop(node, env)
+        if isinstance(node, ast.Subscript):
+            return self.slice(node, env)
+        if isinstance(node, ast.Tuple) and len(node.elts) == 2:
+            a, ta = self.ex(node.elts[0], env)
+            b, tb = self.ex(node.elts[1], env)
+            return f"({a}, {b})", ("pair", ta, tb)
+        if isinstance(node, ast.Call) and not node.keywords and not any(isinstance(a, ast.Starred) for a in node.args):
+            return self.call(node, env)
+        raise Unsupported(f"expression not in subset: {s}")
+
+    def binop(self, node, env):
+        s = ast.unparse(node)
+        op = node.op
+        # `tuple(xs) + (y,)`: the items read so far followed by the rest → the pair (xs, y)
+        if (isinstance(op, ast.Add) and isinstance(node.left, ast.Call) and ast.unparse(node.left.func) == "tuple"
+                and len(node.left.args) == 1 and isinstance(node.right, ast.Tuple) and len(node.right.elts) == 1):
+            a, ta = self.ex(node.left.args[0], env)
+            b, tb = self.ex(node.right.elts[0], env)
+            if not (isinstance(ta, tuple) and ta[0] == "list"):
+                raise Unsupported(f"tuple() of something that is not a list: {s}")
+            return f"({a}, {b})", ("pair", ta, tb)
+        # `b"lit" * n`
+        if isinstance(op, ast.Mult) and isinstance(node.left, ast.Constant) and isinstance(node.left.value, (bytes, str)):
+            a, ta = self.ex(node.left, env)
+            b, tb = self.ex(node.right, env)
+            if tb != "nat":
+                raise Unsupported(f"repetition count that may be negative: {s}")
+            return f"(pyRepeat {a} {b})", ta
+        a, ta = self.ex(node.left, env)
+        b, tb = self.ex(node.right, env)
+        seq = {"bytes": "bytes", "byte": "bytes", "str": "str", "char": "str"}
+        if isinstance(op, ast.Add) and ta in seq and tb in seq and seq[ta] == seq[tb]:
+            t = seq[ta]
+            return f"({self.as_type(a, ta, t, s)} ++ {self.as_type(b, tb, t, s)})", t
+        num = ("nat", "int")
+        if ta in num and tb in num:
+            if ta == "nat" and tb == "nat":
+                if isinstance(op, ast.Add):
+                    return f"({a} + {b})", "nat"
+                if isinstance(op, ast.Mult):
+                    return f"({a} * {b})", "nat"
+                if isinstance(op, ast.BitAnd):
+                    return f"({a} &&& {b})", "nat"
+                if isinstance(op, ast.LShift):
+                    return f"({a} <<< {b})", "nat"
+                if isinstance(op, ast.RShift):
+                    return f"({a} >>> {b})", "nat"
+                if isinstance(op, (ast.FloorDiv, ast.Mod)):
+                    if not (isinstance(node.right, ast.Constant) and isinstance(node.right.value, int) and node.right.value > 0):
+                        raise Unsupported(f"// or % by something that is not a positive literal: {s}")
+                    return f"({a} {'/' if isinstance(op, ast.FloorDiv) else '%'} {b})", "nat"
+            if isinstance(op, (ast.Add, ast.Sub, ast.Mult)):
+                sym = {ast.Add: "+", ast.Sub: "-", ast.Mult: "*"}[type(op)]
+                return f"({self.as_type(a, ta, 'int', s)} {sym} {self.as_type(b, tb, 'int', s)})", "int"
+        raise Unsupported(f"operator not in subset for ({ta}, {tb}): {s}")
+
+    def slice(self, node, env):
+        s = ast.unparse(node)
+        if not isinstance(node.slice, ast.Slice) or node.slice.step is not None:
+            raise Unsupported(f"subscript other than a slice [a:b]: {s}")
+        x, tx = self.ex(node.value, env)
+        if tx not in ("bytes", "str"):
+            raise Unsupported(f"slice of a {tx}: {s}")
+        lo = hi = None
+        if node.slice.lower is not None:
+            lo, tl = self.ex(node.slice.lower, env)
+            if tl != "nat":
+                raise Unsupported(f"slice bound that may be negative: {s}")
+        if node.slice.upper is not None:
+            hi, th = self.ex(node.slice.upper, env)
+            if th != "nat":
+                raise Unsupported(f"slice bound that may be negative: {s}")
+        if hi is not None:
+            x = f"({x}.take {hi})"
+        if lo is not None:
+            x = f"({x}.drop {lo})"
+        return x, tx
+
+    @staticmethod
+    def call_key(node) -> str:
+        pats = [repr(a.value) if isinstance(a, ast.Constant) and isinstance(a.value, (str, bytes)) else "_" for a in node.args]
+        return f"{ast.unparse(node.func)}({','.join(pats)})"
+
+    def call(self, node, env):
+        s = ast.unparse(node)
+        fn, args = ast.unparse(node.func), node.args
+        key = self.call_key(node)
+        if key in self.spec.prims:
+            lean, argts, ret, raises = self.spec.prims[key]
+            real = [a for a in args if not (isinstance(a, ast.Constant) and isinstance(a.value, (str, bytes)))]
+            if len(real) != len(argts):
+                raise Unsupported(f"arity of {key}")
+            terms = []
+            for a, want in zip(real, argts):
+                t, ty = self.ex(a, env)
+                terms.append(self.as_type(t, ty, want, s))
+            app = f"{lean} " + " ".join(terms)
+            if not raises:
+                return f"({app})", ret
+            if not self.spec.effect:
+                raise Unsupported(f"call that can raise in a function declared total: {s}")
+            name = self.fresh("t")
+            self.binds.append([name, app])
+            return name, ret
+        if isinstance(node.func, ast.Attribute) and node.func.attr == "replace" and len(args) == 2:
+            x, tx = self.ex(node.func.value, env)
+            if tx not in ("bytes", "str"):
+                raise Unsupported(f"replace on a {tx}: {s}")
+            el = "byte" if tx == "bytes" else "char"
+            p = args[0]
+            if isinstance(p, ast.Constant) and isinstance(p.value, (bytes, str)) and len(p.value) == 1:
+                c = str(p.value[0]) if isinstance(p.value, bytes) else f"Char.ofNat {ord(p.value)}"
+                pat = f"({c} : {LEAN_T[el]})"
+            else:
+                pat, tp = self.ex(p, env)
+                if tp != el:
+                    raise Unsupported(f"replace pattern that is not one {el}: {s}")
+            r, tr = self.ex(args[1], env)
+            return f"(pyReplace1 {pat} {self.as_type(r, tr, tx, s)} {x})", tx
+        if isinstance(node.func, ast.Attribute) and node.func.attr == "join" and len(args) == 1 \
+                and isinstance(node.func.value, ast.Constant) and node.func.value.value in (b"", ""):
+            x, tx = self.ex(args[0], env)
+            want = "bytes" if isinstance(node.func.value.value, bytes) else "str"
+            if tx != ("list", want):
+                raise Unsupported(f"join of something that is not a list of {want}: {s}")
+            return f"({x}).flatten", want
+        if fn == "len" and len(args) == 1:
+            x, tx = self.ex(args[0], env)
+            if tx not in ("bytes", "str") and not (isinstance(tx, tuple) and tx[0] == "list"):
+                raise Unsupported(f"len of a {tx}: {s}")
+            return f"({x}).length", "nat"
+        if fn == "ord" and len(args) == 1:
+            a = args[0]
+            if isinstance(a, ast.Constant) and isinstance(a.value, (str, bytes)) and len(a.value) == 1:
+                return f"({ord(a.value)} : Nat)", "nat"
+            x, tx = self.ex(a, env)
+            if tx in ("byte", "char"):
+                return f"({x}).toNat", "nat"
+            if tx == "bytes":
+                if not self.spec.effect:
+                    raise Unsupported(f"ord() of a bytes object in a function declared total: {s}")
+                name = self.fresh("t")
+                self.binds.append([name, f"pyOrd {x}"])
+                return name, "nat"
+            raise Unsupported(f"ord of a {tx}: {s}")
+        if fn == "bytes" and len(args) == 1 and isinstance(args[0], ast.Tuple) and len(args[0].elts) == 1:
+            e = args[0].elts[0]
+            x, tx = self.ex(e, env)
+            b = self.bound(e, env)
+            if tx != "nat" or b is None or b > 255:
+                raise Unsupported(f"bytes((e,)) where e is not statically within range(256): {s}")
+            return f"[UInt8.ofNat {x}]", "bytes"
+        if fn == "networkString" and len(args) == 1 and isinstance(args[0], ast.JoinedStr):
+            parts = []
+            for v in args[0].values:
+                if isinstance(v, ast.Constant) and isinstance(v.value, str) and v.value.isascii():
+                    parts.append(self.lit_bytes(v.value.encode("ascii")))
+                elif (isinstance(v, ast.FormattedValue) and v.conversion == -1 and v.format_spec is not None
+                      and ast.unparse(v.format_spec) == "f'02X'"):
+                    x, tx = self.ex(v.value, env)
+                    b = self.bound(v.value, env)
+                    if tx != "nat" or b is None or b > 255:
+                        raise Unsupported(f"{{e:02X}} where e is not statically below 256: {s}")
+                    parts.append(f"pyFmt02X {x}")
+                else:
+                    raise Unsupported(f"f-string piece not in subset: {s}")
+            return "(" + " ++ ".join(parts) + ")", "bytes"
+        raise Unsupported(f"call not in subset: {s}")
+
+    # ---- conditions: decidable Prop
+    def cond(self, node, env) -> str:
+        s = ast.unparse(node)
+        n0 = len(self.binds)
+        if isinstance(node, ast.BoolOp):
+            out = []
+            for i, v in enumerate(node.values):
+                out.append(self.cond(v, env))
+                if i == 0:
+                    n0 = len(self.binds)
+                elif len(self.binds) != n0:
+                    raise Unsupported(f"call that can raise under a short-circuit operator: {s}")
+            return "(" + (" ∧ " if isinstance(node.op, ast.And) else " ∨ ").join(out) + ")"
+        if isinstance(node, ast.UnaryOp) and isinstance(node.op, ast.Not):
+            return f"(¬ {self.cond(node.operand, env)})"
+        if isinstance(node, ast.Compare):
+            if len(node.ops) != 1 or type(node.ops[0]) not in CMP:
+                raise Unsupported(f"comparison not in subset: {s}")
+            a, ta = self.ex(node.left, env)
+            b, tb = self.ex(node.comparators[0], env)
+            if ta != tb:
+                if {ta, tb} == {"nat", "int"}:
+                    a, b = self.as_type(a, ta, "int", s), self.as_type(b, tb, "int", s)
+                else:
+                    raise Unsupported(f"comparison of a {ta} with a {tb}: {s}")
+            elif ta not in ("nat", "int") and not isinstance(node.ops[0], (ast.Eq, ast.NotEq)):
+                raise Unsupported(f"ordering of {ta}: {s}")
+            return f"({a} {CMP[type(node.ops[0])]} {b})"
+        x, tx = self.ex(node, env)
+        if tx in ("nat", "int"):
+            return f"({x} ≠ 0)"
+        if tx in ("bytes", "str") or (isinstance(tx, tuple) and tx[0] == "list"):
+            return f"({x} ≠ [])"
+        raise Unsupported(f"truth value of a {tx}: {s}")
+
+    # ---- statements
+    def flush(self, pad: str) -> list[str]:
+        out = [f"{pad}let {n} ← {rhs}" for n, rhs in self.binds]
+        self.binds = []
+        return out
+
+    def ret_line(self, term: str, ty, pad: str) -> str:
+        if ty != self.spec.ret:
+            raise Unsupported(f"{self.spec.pyname}: returns a {ty}, declared {self.spec.ret}")
+        return f"{pad}pure {term}" if self.spec.effect else f"{pad}{term}"
+
+    @staticmethod
+    def is_doc(st) -> bool:
+        return isinstance(st, ast.Expr) and isinstance(st.value, ast.Constant) and isinstance(st.value.value, str)
+
+    def assigned(self, st, env):
+        """(python name, value node) of a simple (re)assignment, `x op= e`, `x.append(e)`, `sink(e)`; else None."""
+        if isinstance(st, ast.AnnAssign) and st.value is not None and isinstance(st.target, ast.Name):
+            return st.target.id, st.value
+        if isinstance(st, ast.Assign) and len(st.targets) == 1 and isinstance(st.targets[0], ast.Name):
+            return st.targets[0].id, st.value
+        if isinstance(st, ast.AugAssign) and isinstance(st.target, ast.Name):
+            return st.target.id, ast.BinOp(left=ast.Name(id=st.target.id, ctx=ast.Load()), op=st.op, right=st.value)
+        return None
+
+    def appended(self, st):
+        """(python list name | "$out", element node) of `x.append(e)` / `sink(e)`; else None."""
+        if isinstance(st, ast.Expr) and isinstance(st.value, ast.Call) and not st.value.keywords and len(st.value.args) == 1:
+            f = st.value.func
+            if isinstance(f, ast.Attribute) and f.attr == "append" and isinstance(f.value, ast.Name):
+                return f.value.id, st.value.args[0]
+            if isinstance(f, ast.Name) and self.spec.sink and f.id == self.spec.sink:
+                return "$out", st.value.args[0]
+        return None
+
+    def assign_value(self, name, value, env):
+        """Translate the right-hand side of `name = value`: (term, type, bound)."""
+        if isinstance(value, ast.List) and not value.elts:
+            if name not in self.spec.locals:
+                raise Unsupported(f"`{name} = []` without a declared element type")
+            return "[]", self.spec.locals[name], None
+        term, ty = self.ex(value, env)
+        if isinstance(ty, str) and ty.startswith("tuple1:"):
+            raise Unsupported(f"a 1-tuple assigned to a plain name: {name}")
+        return term, ty, (self.bound(value, env) if ty == "nat" else None)
+
+    def append_value(self, lst, elem, env):
+        if lst not in env:
+            raise Unsupported(f"append to something that is not a local list: {lst}")
+        cur, tl, _ = env[lst]
+        e, te = self.ex(elem, env)
+        if lst == "$out":
+            if te != tl:
+                raise Unsupported(f"{self.spec.sink}() of a {te}")
+            return f"({cur} ++ {e})", tl, None
+        if not (isinstance(tl, tuple) and tl[0] == "list") or tl[1] != te:
+            raise Unsupported(f"{lst}.append of a {te} to a {tl}")
+        return f"({cur} ++ [{e}])", tl, None
+
+    def names_assigned(self, stmts) -> list[str]:
+        out = []
+        for st in stmts:
+            for sub in ast.walk(st):
+                n = None
+                if isinstance(sub, (ast.Assign, ast.AnnAssign, ast.AugAssign)):
+                    tgts = sub.targets if isinstance(sub, ast.Assign) else [sub.target]
+                    for t in tgts:
+                        for e in (t.elts if isinstance(t, ast.Tuple) else [t]):
+                            if isinstance(e, ast.Name):
+                                out.append(e.id)
+                            else:
+                                raise Unsupported(f"assignment target not in subset: {ast.unparse(t)}")
+                elif isinstance(sub, ast.stmt):
+                    a = self.appended(sub)
+                    if a is not None:
+                        out.append(a[0])
+        return list(dict.fromkeys(out))
+
+    def sym(self, stmts, env):
+        """An assignment-only branch evaluated symbolically (no lets, nothing that can raise): env → env'."""
+        env = dict(env)
+        n0 = len(self.binds)
+        for st in stmts:
+            if self.is_doc(st) or isinstance(st, ast.Pass):
+                continue
+            a = self.assigned(st, env)
+            if a is not None:
+                env[a[0]] = self.assign_value(a[0], a[1], env)
+            elif self.appended(st) is not None:
+                lst, e = self.appended(st)
+                env[lst] = self.append_value(lst, e, env)
+            elif isinstance(st, ast.If) and ast.unparse(st.test) not in self.spec.static:
+                c = self.cond(st.test, env)
+                env = self.merge(c, self.sym(st.body, env), self.sym(st.orelse, env), env, None, "")
+            else:
+                raise Unsupported(f"statement not in subset inside a merging branch: {ast.unparse(st)[:80]}")
+            if len(self.binds) != n0:
+                raise Unsupported(f"call that can raise inside a merging branch: {ast.unparse(st)[:80]}")
+        return env
+
+    def merge(self, c, e1, e2, env, lines, pad):
+        """Join two branch environments; with `lines`, differing variables become lets, else inline `if`s."""
+        env = dict(env)
+        for n in list(dict.fromkeys(list(e1) + list(e2))):
+            a, b = e1.get(n), e2.get(n)
+            if a is None or b is None:
+                raise Unsupported(f"{n} is assigned on one path only and was not defined before")
+            if a[0] == b[0]:
+                env[n] = a
+                continue
+            if a[1] != b[1]:
+                raise Unsupported(f"{n} has type {a[1]} on one path and {b[1]} on the other")
+            bd = None if a[2] is None or b[2] is None else max(a[2], b[2])
+            term = f"(if {c} then {a[0]} else {b[0]})"
+            if lines is not None:
+                k = self.fresh(n if n != "$out" else "out")
+                lines.append(f"{pad}let {k} : {lean_type(a[1])} := if {c} then {a[0]} else {b[0]}")
+                term = k
+            env[n] = (term, a[1], bd)
+        return env
+
+    def terminates(self, stmts) -> bool:
+        if not stmts:
+            return False
+        st = stmts[-1]
+        if isinstance(st, (ast.Return, ast.Raise)):
+            return True
+        if isinstance(st, ast.If):
+            key = ast.unparse(st.test)
+            if key in self.spec.static:
+                return self.terminates(st.body if self.spec.static[key] else st.orelse)
+            return bool(st.orelse) and self.terminates(st.body) and self.terminates(st.orelse)
+        return False
+
+    def block(self, stmts, env, ind, fin) -> list[str]:
+        """Lines of the Lean term for `stmts` followed by the continuation `fin(env, ind)`."""
+        pad = "  " * ind
+        stmts = list(stmts)
+        if not stmts:
+            return fin(env, ind)
+        st, rest = stmts[0], stmts[1:]
+        if self.is_doc(st) or isinstance(st, ast.Pass):
+            return self.block(rest, env, ind, fin)
+        env = dict(env)
+        # (a, b, c) = "xyz"  /  (v,) = <call returning a 1-tuple>
+        if isinstance(st, ast.Assign) and len(st.targets) == 1 and isinstance(st.targets[0], ast.Tuple) \
+                and all(isinstance(e, ast.Name) for e in st.targets[0].elts):
+            names = [e.id for e in st.targets[0].elts]
+            if isinstance(st.value, ast.Constant) and isinstance(st.value.value, str) and len(st.value.value) == len(names):
+                out = []
+                for n, ch in zip(names, st.value.value):
+                    k = self.fresh(n)
+                    out.append(f"{pad}let {k} : Char := Char.ofNat {ord(ch)}")
+                    env[n] = (k, "char", None)
+                return out + self.block(rest, env, ind, fin)
+            if len(names) == 1:
+                term, ty = self.ex(st.value, env)
+                if not (isinstance(ty, str) and ty.startswith("tuple1:")):
+                    raise Unsupported(f"1-tuple target for something that is not a 1-tuple: {ast.unparse(st)}")
+                ty = ty[len("tuple1:"):]
+                k = self.fresh(names[0])
+                if self.binds and self.binds[-1][0] == term:
+                    self.binds[-1][0] = k
+                    out = self.flush(pad)
+                else:
+                    out = self.flush(pad) + [f"{pad}let {k} : {lean_type(ty)} := {term}"]
+                env[names[0]] = (k, ty, None)
+                return out + self.block(rest, env, ind, fin)
+            raise Unsupported(f"tuple assignment not in subset: {ast.unparse(st)[:80]}")
+        a = self.assigned(st, env)
+        if a is not None:
+            name, value = a
+            term, ty, bd = self.assign_value(name, value, env)
+            k = self.fresh(name)
+            if self.binds and self.binds[-1][0] == term:
+                self.binds[-1][0] = k
+                out = self.flush(pad)
+            else:
+                out = self.flush(pad) + [f"{pad}let {k} : {lean_type(ty)} := {term}"]
+            env[name] = (k, ty, bd)
+            return out + self.block(rest, env, ind, fin)
+        if self.appended(st) is not None:
+            lst, e = self.appended(st)
+            term, ty, _ = self.append_value(lst, e, env)
+            k = self.fresh(lst if lst != "$out" else "out")
+            out = self.flush(pad) + [f"{pad}let {k} : {lean_type(ty)} := {term}"]
+            env[lst] = (k, ty, None)
+            return out + self.block(rest, env, ind, fin)
+        if isinstance(st, ast.Return):
+            if st.value is None:
+                if not self.spec.sink:
+                    raise Unsupported("bare return")
+                return [self.ret_line(env["$out"][0], env["$out"][1], pad)]
+            term, ty = self.ex(st.value, env)
+            return self.flush(pad) + [self.ret_line(term, ty, pad)]
+        if isinstance(st, ast.Assert):
+            if not self.spec.effect:
+                raise Unsupported("assert in a function declared total")
+            c = self.cond(st.test, env)
+            out = self.flush(pad) + [f"{pad}if {c} then"]
+            inner = dict(env)
+            t = st.test
+            if (isinstance(t, ast.Compare) and len(t.ops) == 1 and isinstance(t.ops[0], (ast.Gt, ast.GtE))
+                    and isinstance(t.left, ast.Name) and env.get(t.left.id, (None, None))[1] == "int"
+                    and isinstance(t.comparators[0], ast.Constant) and t.comparators[0].value == 0):
+                # `assert v > 0` / `assert v >= 0`: from here on v is a natural number
+                k = self.fresh(t.left.id)
+                out.append(f"{pad}  let {k} : Nat := ({env[t.left.id][0]}).toNat")
+                inner[t.left.id] = (k, "nat", None)
+            return out + self.block(rest, inner, ind + 1, fin) + [f"{pad}else", f"{pad}  throw PyErr.assertionError"]
+        if isinstance(st, ast.If):
+            key = ast.unparse(st.test)
+            if key in self.spec.static:
+                return self.block(list(st.body if self.spec.static[key] else st.orelse) + rest, env, ind, fin)
+            if self.terminates(st.body):
+                c = self.cond(st.test, env)
+                out = self.flush(pad)
+                return (out + [f"{pad}if {c} then"] + self.block(st.body, env, ind + 1, fin)
+                        + [f"{pad}else"] + self.block(list(st.orelse) + rest, env, ind + 1, fin))
+            c = self.cond(st.test, env)
+            out = self.flush(pad)
+            env = self.merge(c, self.sym(st.body, env), self.sym(st.orelse, env), env, out, pad)
+            return out + self.block(rest, env, ind, fin)
+        if isinstance(st, ast.For):
+            return self.for_loop(st, rest, env, ind, fin)
+        if isinstance(st, ast.While):
+            return self.while_loop(st, rest, env, ind, fin)
+        raise Unsupported(f"statement not in subset: {ast.unparse(st)[:80]}")
+
+    # ---- loops
+    def loop_parts(self, st, env, extra_bound=()):
+        """(state names, free names) of a loop body; checks that control leaves it only at the end."""
+        for sub in ast.walk(st):
+            if isinstance(sub, (ast.Break, ast.Continue, ast.Return, ast.Raise, ast.Try, ast.With, ast.FunctionDef,
+                                ast.Lambda, ast.Yield, ast.YieldFrom, ast.Global, ast.Nonlocal, ast.Delete)):
+                raise Unsupported(f"{type(sub).__name__} inside a loop")
+        if st.orelse:
+            raise Unsupported("loop with an else clause")
+        assigned = self.names_assigned(st.body)
+        state = [n for n in env if n in assigned]
+        loaded = []
+        for b in st.body:
+            for sub in ast.walk(b):
+                if isinstance(sub, ast.Name) and isinstance(sub.ctx, ast.Load):
+                    loaded.append(sub.id)
+        free = [n for n in env if n in loaded and n not in state and n not in extra_bound]
+        return state, free
+
+    @staticmethod
+    def proj(var: str, i: int, n: int) -> str:
+        if n == 1:
+            return var
+        return var + ".2" * i + (".1" if i < n - 1 else "")
+
+    def state_type(self, state, env) -> str:
+        return " × ".join(lean_type(env[n][1]) for n in state)
+
+    def loop_env(self, state, free, env):
+        inner = {}
+        for n in env:
+            if n in free or n in state:
+                inner[n] = (lean_ident(n) if n != "$out" else "out", env[n][1], env[n][2] if n in free else None)
+        return inner
+
+    def after_loop(self, call, state, env, ind, monadic):
+        pad = "  " * ind
+        env = dict(env)
+        if len(state) == 1:
+            k = self.fresh(state[0] if state[0] != "$out" else "out")
+            ty = lean_type(env[state[0]][1])
+            out = [f"{pad}let {k} ← {call}" if monadic else f"{pad}let {k} : {ty} := {call}"]
+            env[state[0]] = (k, env[state[0]][1], None)
+            return out, env
+        lp = self.fresh("loop")
+        out = [f"{pad}let {lp} ← {call}" if monadic else f"{pad}let {lp} : {self.state_type(state, env)} := {call}"]
+        for i, n in enumerate(state):
+            k = self.fresh(n if n != "$out" else "out")
+            out.append(f"{pad}let {k} : {lean_type(env[n][1])} := {self.proj(lp, i, len(state))}")
+            env[n] = (k, env[n][1], None)
+        return out, env
+
+    def for_loop(self, st, rest, env, ind, fin):
+        if not isinstance(st.target, ast.Name):
+            raise Unsupported("loop target is not a name")
+        tgt = st.target.id
+        if tgt in env:
+            raise Unsupported(f"loop target {tgt} shadows a variable defined before the loop")
+        it = st.iter
+        if isinstance(it, ast.Call) and ast.unparse(it.func) == "range" and len(it.args) == 1 and not it.keywords:
+            n, tn = self.ex(it.args[0], env)
+            if tn != "nat":
+                raise Unsupported(f"range() of something that may be negative: {ast.unparse(it)}")
+            xs, elt = f"(List.range {n})", "nat"
+        elif isinstance(it, ast.Call) and ast.unparse(it.func) == "iterbytes" and len(it.args) == 1 and not it.keywords:
+            xs, tx = self.ex(it.args[0], env)
+            if tx != "bytes":
+                raise Unsupported(f"iterbytes of a {tx}")
+            elt = "byte"
+        elif isinstance(it, ast.Tuple) and it.elts:
+            items = [self.ex(e, env) for e in it.elts]
+            elt = items[0][1]
+            if elt not in ("char", "byte") or any(t != elt for _, t in items):
+                raise Unsupported(f"loop over a tuple that is not of single characters: {ast.unparse(it)}")
+            xs = "[" + ", ".join(t for t, _ in items) + "]"
+        else:
+            raise Unsupported(f"loop iterable not in subset: {ast.unparse(it)}")
+        if self.binds:
+            raise Unsupported("call that can raise in a loop header")
+        state, free = self.loop_parts(st, env, extra_bound=(tgt,))
+        if not state:
+            raise Unsupported("loop that assigns nothing defined before it")
+        self.nloops += 1
+        step = f"{self.spec.leanname}Step" + ("" if self.nloops == 1 else str(self.nloops))
+        inner = self.loop_env(state, free, env)
+        inner[tgt] = (lean_ident(tgt), elt, {"byte": None, "char": None}.get(elt))
+        stt = self.state_type(state, env)
+        pat = "(" + ", ".join(inner[n][0] for n in state) + ")" if len(state) > 1 else inner[state[0]][0]
+
+        def step_fin(e, i):
+            tup = ", ".join(e[n][0] for n in state)
+            tup = f"({tup})" if len(state) > 1 else tup
+            return [("  " * i) + (f"pure {tup}" if self.spec.effect else tup)]
+        saved = self.counter
+        self.counter = {}
+        body = self.block(st.body, inner, 2, step_fin)
+        self.counter = saved
+        params = "".join(f" ({inner[n][0]} : {lean_type(env[n][1])})" for n in free)
+        res = f"Except PyErr ({stt})" if self.spec.effect else stt
+        self.aux.append(
+            f"/-- one iteration of the `for {tgt} in {ast.unparse(it)}` loop of `{self.spec.pyname}` -/\n"
+            f"def {step}{params} : {stt} → {lean_type(elt)} → {res}\n"
+            f"  | {pat}, {inner[tgt][0]} =>" + (" do" if self.spec.effect else "") + "\n" + "\n".join(body) + "\n")
+        init = ", ".join(env[n][0] for n in state)
+        init = f"({init})" if len(state) > 1 else init
+        fargs = "".join(f" {env[n][0]}" for n in free)
+        fold = "List.foldlM" if self.spec.effect else "List.foldl"
+        call = f"{fold} ({step}{fargs}) {init} {xs}"
+        out, env = self.after_loop(call, state, env, ind, self.spec.effect)
+        return out + self.block(rest, env, ind, fin)
+
+    def while_loop(self, st, rest, env, ind, fin):
+        """`while v:` over a natural number v whose last top-level assignment in the body is `v = v >> k` (k ≥ 1) or
+        `v = v // k` (k ≥ 2) and which is assigned nowhere else: a recursive function, terminating by v."""
+        if not (isinstance(st.test, ast.Name) and env.get(st.test.id, (None, None))[1] == "nat"):
+            raise Unsupported(f"while condition is not a natural-number variable: {ast.unparse(st.test)}")
+        v = st.test.id
+        state, free = self.loop_parts(st, env)
+        shrink = None
+        count = 0
+        for sub in ast.walk(st):
+            if isinstance(sub, (ast.Assign, ast.AugAssign, ast.AnnAssign)) and v in self.names_assigned([sub]):
+                count += 1
+        for s0 in st.body:
+            a = self.assigned(s0, env)
+            if a is not None and a[0] == v:
+                val = a[1]
+                if (isinstance(val, ast.BinOp) and isinstance(val.left, ast.Name) and val.left.id == v
+                        and isinstance(val.right, ast.Constant) and isinstance(val.right.value, int)):
+                    k = val.right.value
+                    if isinstance(val.op, ast.RShift) and k >= 1:
+                        shrink = ("shift", k)
+                    elif isinstance(val.op, ast.FloorDiv) and k >= 2:
+                        shrink = ("div", k)
+        if shrink is None or count != 1:
+            raise Unsupported(f"while loop whose variable {v} is not shrunk exactly once by `>> k` or `// k`")
+        if self.spec.effect:
+            # the loop function itself is total: nothing that can raise inside it
+            pass
+        self.nloops += 1
+        loop = f"{self.spec.leanname}Loop" + ("" if self.nloops == 1 else str(self.nloops))
+        inner = self.loop_env(state, free, env)
+        stt = self.state_type(state, env)
+
+        def step_fin(e, i):
+            return [("  " * i) + f"{loop}" + "".join(f" {inner[n][0]}" for n in free) + "".join(f" {e[n][0]}" for n in state)]
+        saved, self.counter = self.counter, {}
+        eff, self.spec.effect = self.spec.effect, False
+        try:
+            body = self.block(st.body, inner, 2, step_fin)
+        finally:
+            self.spec.effect = eff
+        self.counter = saved
+        params = "".join(f" ({inner[n][0]} : {lean_type(env[n][1])})" for n in free + state)
+        tup = ", ".join(inner[n][0] for n in state)
+        tup = f"({tup})" if len(state) > 1 else tup
+        lemma = ("Nat.shiftRight_eq_div_pow" if shrink[0] == "shift" else "")
+        self.aux.append(
+            f"/-- the `while {v}:` loop of `{self.spec.pyname}` -/\n"
+            f"def {loop}{params} : {stt} :=\n"
+            f"  if h : {inner[v][0]} ≠ 0 then\n" + "\n".join(body) + "\n"
+            f"  else {tup}\n"
+            f"termination_by {inner[v][0]}\n"
+            f"decreasing_by\n"
+            + (f"  simp only [{lemma}]\n" if lemma else "")
+            + f"  exact Nat.div_lt_self (Nat.pos_of_ne_zero h) (by decide)\n")
+        call = loop + "".join(f" {env[n][0]}" for n in free + state)
+        out, env = self.after_loop(call, state, env, ind, False)
+        return out + self.block(rest, env, ind, fin)
+
+    # ---- whole functions
+    def render(self, fn: ast.FunctionDef) -> str:
+        spec = self.spec
+        want = [p for p, _ in spec.params]
+        have = [a.arg for a in fn.args.args if a.arg != "self" and a.arg != spec.sink and a.arg not in spec.ignore]
+        if have != want or fn.args.vararg or fn.args.kwarg or fn.args.kwonlyargs or fn.args.posonlyargs:
+            raise Unsupported(f"{spec.pyname}: parameters are {have}, expected {want}")
+        for sub in ast.walk(fn):
+            if isinstance(sub, ast.Name) and sub.id in spec.ignore:
+                raise Unsupported(f"{spec.pyname}: reads the parameter {sub.id}, which is outside the kernel")
+        env = {p: (lean_ident(p), t, None) for p, t in spec.params}
+        if spec.sink:
+            env["$out"] = ("([] : List UInt8)", "bytes", None)
+
+        def fin(e, i):
+            if spec.sink:
+                return [self.ret_line(e["$out"][0], e["$out"][1], "  " * i)]
+            raise Unsupported("control reaches end of function without return")
+        stmts = [st for st in fn.body if not self.is_doc(st)]
+        if spec.tail:
+            body = [self.tail_call(stmts, env)]
+        else:
+            body = self.block(stmts, env, 1, fin)
+        params = " ".join(f"({lean_ident(p)} : {lean_type(t)})" for p, t in spec.params)
+        rt = lean_type(spec.ret)
+        res = f"Except PyErr ({rt})" if spec.effect else rt
+        head = f"def {spec.leanname} {params} : {res} :=" + (" do" if spec.effect else "")
+        return "\n".join(self.aux + [head] + body) + "\n"
+
+    def tail_call(self, stmts, env) -> str:
+        """A body that is exactly one call statement `<callee>(.., E)` with the callee in `spec.tail`."""
+        if not (len(stmts) == 1 and isinstance(stmts[0], ast.Expr) and isinstance(stmts[0].value, ast.Call)
+                and not stmts[0].value.keywords):
+            raise Unsupported(f"{self.spec.pyname}: body is not a single call statement")
+        c = stmts[0].value
+        callee = ast.unparse(c.func)
+        if callee not in self.spec.tail:
+            raise Unsupported(f"{self.spec.pyname}: hands its data to {callee}, expected one of {sorted(self.spec.tail)}")
+        args = [a for a in c.args if not (isinstance(a, ast.Name) and a.id == "self")]
+        if len(args) != 1:
+            raise Unsupported(f"{self.spec.pyname}: {callee} is not given exactly one value")
+        term, ty = self.ex(args[0], env)
+        if self.binds:
+            raise Unsupported("call that can raise in a total function")
+        if ty != self.spec.ret:
+            raise Unsupported(f"{self.spec.pyname}: hands over a {ty}, declared {self.spec.ret}")
+        lean = self.spec.tail[callee]
+        return f"  {lean} {term}" if lean else f"  {term}"
+
+
+def require_import(tree: ast.Module, text: str) -> None:
+    """The module (top level) contains exactly this import statement, or one importing a superset of its names."""
+    want = ast.parse(text).body[0]
+    for st in tree.body:
+        if isinstance(want, ast.Import) and isinstance(st, ast.Import):
+            if {a.name for a in want.names if a.asname is None} <= {a.name for a in st.names if a.asname is None}:
+                return
+        if isinstance(want, ast.ImportFrom) and isinstance(st, ast.ImportFrom) and st.module == want.module \
+                and st.level == want.level:
+            if {a.name for a in want.names} <= {a.name for a in st.names if a.asname is None}:
+                return
+    raise Unsupported(f"expected `{text}` at module level")
+
+
+def no_rebinding(tree: ast.Module, names) -> None:
+    """None of `names` is re-bound at module level by a def / class / assignment (the rename table's meaning holds)."""
+    for st in tree.body:
+        bound = []
+        if isinstance(st, (ast.FunctionDef, ast.ClassDef)):
+            bound = [st.name]
+        elif isinstance(st, (ast.Assign, ast.AnnAssign, ast.AugAssign)):
+            tg = st.targets if isinstance(st, ast.Assign) else [st.target]
+            bound = [n.id for t in tg for n in ast.walk(t) if isinstance(n, ast.Name)]
+        for b in bound:
+            if b in names:
+                raise Unsupported(f"{b} is re-bound at module level")
+
+
+# ---------------------------------------------------------------------------------------
+# Kernel: conch/ssh/common.py NS, getNS, MP, getMP (C37)
+
+def gen_sshwire(repo: Path) -> str:
+    src = (repo / "src/twisted/conch/ssh/common.py").read_text()
+    tree = ast.parse(src)
+    require_import(tree, "import struct")
+    require_import(tree, "from cryptography.utils import int_to_bytes")
+    no_rebinding(tree, {"struct", "int_to_bytes", "int", "len", "ord", "tuple", "range", "isinstance", "str"})
+    out = [
+        "import TwistedModel.Py.Bytes",
+        "/- GENERATED by harness/py2lean.py from src/twisted/conch/ssh/common.py — do not edit.",
+        "   bytes are List UInt8; a function that can raise returns Except PyErr; struct.pack/unpack('!L'/'>L'),",
+        "   int_to_bytes and int.from_bytes are the fixed primitives below (over u32be / beToNat / natToBE of",
+        "   TwistedModel/Py/Bytes.lean); s[a:b] is (s.take b).drop a (bounds are natural numbers);",
+        "   `for i in range(count)` is List.foldlM of the generated loop body over List.range count;",
+        "   `tuple(xs) + (rest,)` is the pair (xs, rest); isinstance(t, str) is False (t : bytes). -/",
+        "set_option linter.unusedVariables false",
+        "namespace Generated.SshWire",
+        "",
+        BYTES_PRELUDE,
+        STRUCT_PRELUDE,
+    ]
+    out.append(ByteTr(BSpec("NS", "NS", [("t", "bytes")], "bytes", effect=True, prims=STRUCT_PRIMS,
+                            static={"isinstance(t, str)": False})).render(find_function(tree, "NS")))
+    out.append(ByteTr(BSpec("getNS", "getNS", [("s", "bytes"), ("count", "nat")],
+                            ("pair", ("list", "bytes"), "bytes"), effect=True, prims=STRUCT_PRIMS,
+                            locals={"ns": ("list", "bytes")})).render(find_function(tree, "getNS")))
+    out.append(ByteTr(BSpec("MP", "MP", [("number", "int")], "bytes", effect=True, prims=STRUCT_PRIMS)).render(
+        find_function(tree, "MP")))
+    out.append(ByteTr(BSpec("getMP", "getMP", [("data", "bytes"), ("count", "nat")],
+                            ("pair", ("list", "nat"), "bytes"), effect=True, prims=STRUCT_PRIMS,
+                            locals={"mp": ("list", "nat")})).render(find_function(tree, "getMP")))
+    out.append("end Generated.SshWire\n")
+    return "\n".join(out)
+
+
+# ---------------------------------------------------------------------------------------
+# Kernel: spread/banana.py int2b128, b1282int (C44)
+
+def gen_banana(repo: Path) -> str:
+    src = (repo / "src/twisted/spread/banana.py").read_text()
+    tree = ast.parse(src)
+    require_import(tree, "from twisted.python.compat import iterbytes")
+    no_rebinding(tree, {"iterbytes", "ord", "bytes"})
+    out = [
+        "/- GENERATED by harness/py2lean.py from src/twisted/spread/banana.py — do not edit.",
+        "   int2b128(integer, stream): every stream(e) appends e to the output, which is the result (Except PyErr:",
+        "   the assert); after `assert integer > 0` the integer is a natural number; the `while integer:` loop",
+        "   (integer shrunk by `>> 7`) is a recursive function terminating by integer.  b1282int: the for-loop over",
+        "   iterbytes(st) is List.foldl of the generated loop body over the bytes. -/",
+        "set_option linter.unusedVariables false",
+        "namespace Generated.Banana",
+        "",
+        BYTES_PRELUDE,
+    ]
+    out.append(ByteTr(BSpec("int2b128", "int2b128", [("integer", "int")], "bytes", effect=True, sink="stream")).render(
+        find_function(tree, "int2b128")))
+    out.append(ByteTr(BSpec("b1282int", "b1282int", [("st", "bytes")], "nat")).render(find_function(tree, "b1282int")))
+    out.append("end Generated.Banana\n")
+    return "\n".join(out)
+
+
+# ---------------------------------------------------------------------------------------
+# Kernel: internet/endpoints.py quoteStringArgument (C46)
+
+def gen_quote(repo: Path) -> str:
+    src = (repo / "src/twisted/internet/endpoints.py").read_text()
+    tree = ast.parse(src)
+    out = [
+        "/- GENERATED by harness/py2lean.py from src/twisted/internet/endpoints.py — do not edit.",
+        "   str is List Char; `a, b, c = \"xyz\"` binds three characters; the loop over the tuple of characters is",
+        "   List.foldl of the generated loop body; x.replace(c, r) for a one-character c is pyReplace1. -/",
+        "set_option linter.unusedVariables false",
+        "namespace Generated.Quote",
+        "",
+        BYTES_PRELUDE,
+    ]
+    out.append(ByteTr(BSpec("quoteStringArgument", "quoteStringArgument", [("argument", "str")], "str")).render(
+        find_function(tree, "quoteStringArgument")))
+    out.append("end Generated.Quote\n")
+    return "\n".join(out)
+
+
+# ---------------------------------------------------------------------------------------
+# Kernel: conch/telnet.py TelnetTransport.write → ProtocolTransportMixin.write (C38)
+
+def gen_telnet(repo: Path) -> str:
+    src = (repo / "src/twisted/conch/telnet.py").read_text()
+    tree = ast.parse(src)
+    out = [
+        "/- GENERATED by harness/py2lean.py from src/twisted/conch/telnet.py — do not edit.",
+        "   The value of each function is the bytes it hands on: ProtocolTransportMixin.write hands",
+        "   its argument expression to self.transport.write; TelnetTransport.write hands its argument expression to",
+        "   ProtocolTransportMixin.write(self, ·).  x.replace(b, r) for a one-byte b is pyReplace1. -/",
+        "set_option linter.unusedVariables false",
+        "namespace Generated.Telnet",
+        "",
+        BYTES_PRELUDE,
+    ]
+    out.append(ByteTr(BSpec("ProtocolTransportMixin.write", "mixinWrite", [("data", "bytes")], "bytes",
+                            tail={"self.transport.write": ""})).render(
+        find_function(tree, "ProtocolTransportMixin.write")))
+    out.append(ByteTr(BSpec("TelnetTransport.write", "write", [("data", "bytes")], "bytes",
+                            tail={"ProtocolTransportMixin.write": "mixinWrite"})).render(
+        find_function(tree, "TelnetTransport.write")))
+    out.append("end Generated.Telnet\n")
+    return "\n".join(out)
+
+
+# ---------------------------------------------------------------------------------------
+# Kernel: mail/smtp.py xtext_encode (C41)
+
+def gen_xtext(repo: Path) -> str:
+    src = (repo / "src/twisted/mail/smtp.py").read_text()
+    tree = ast.parse(src)
+    require_import(tree, "from twisted.python.compat import iterbytes, networkString")
+    no_rebinding(tree, {"iterbytes", "networkString", "ord", "bytes", "len"})
+    out = [
+        "/- GENERATED by harness/py2lean.py from src/twisted/mail/smtp.py — do not edit.",
+        "   The for-loop over iterbytes(s) is List.foldl of the generated loop body over the bytes; ord(ch) of a loop",
+        "   byte is its value (< 256, which licenses bytes((o,)) and {o:02X} = pyFmt02X); networkString of an ASCII",
+        "   f-string is its bytes; b\"\".join(r) is r.flatten; the result is the pair (encoded, len(s)). -/",
+        "set_option linter.unusedVariables false",
+        "namespace Generated.Xtext",
+        "",
+        BYTES_PRELUDE,
+    ]
+    out.append(ByteTr(BSpec("xtext_encode", "xtextEncode", [("s", "bytes")], ("pair", "bytes", "nat"),
+                            locals={"r": ("list", "bytes")}, ignore=("errors",))).render(
+        find_function(tree, "xtext_encode")))
+    out.append("end Generated.Xtext\n")
+    return "\n".join(out)
+
+
+KERNELS = {"Rfc1982": gen_rfc1982, "Looping": gen_looping, "Range": gen_range, "FD": gen_fd, "Ftp": gen_ftp,
+           "SshWire": gen_sshwire, "Banana": gen_banana, "Quote": gen_quote, "Telnet": gen_telnet, "Xtext": gen_xtext}
 
 
 def main(argv):
@@ -734,10 +1749,12 @@ def main(argv):
             text = gen(repo)
         except Exception as e:   # Unsupported, SyntaxError, OSError, or a bug in a generator: same outcome
             # Leave a file that cannot satisfy the equality theorems: the tie is broken.
-            text = (f"/- GENERATED: translation FAILED: {e!s} -/\n"
+            msg = " ".join(str(e).split())
+            lit = '"' + msg.replace("\\", "\\\\").replace('"', '\\"') + '"'
+            text = (f"/- GENERATED: translation FAILED: {msg.replace('-/', '- /').replace('/-', '/ -')} -/\n"
                     f"namespace Generated.{name}\n"
-                    f"def translationFailed : String := {ast.unparse(ast.Constant(str(e)))!s}\n".replace("'", '"')
-                    + f"end Generated.{name}\n")
+                    f"def translationFailed : String := {lit}\n"
+                    f"end Generated.{name}\n")
             print(f"py2lean: {name}: {e}", file=sys.stderr)
             status = 3
         if not target.exists() or target.read_text() != text:
